@@ -14,7 +14,7 @@ descs = graphprops.descs_C09
 
 def bounded(tier, seed, rep):
     from bounded import leancheck
-    leancheck.check(rep, "lean/C09Acyclic.lean", "C09.enc_iff_acyclic")
+    leancheck.check(rep, "lean/Encoders.lean", "C09.enc_iff_acyclic")
     leancheck.leaf_characterisation_selftest(rep, tier)
     emission.run_parallel(rep, PROP, MOD, list(graphprops.with_builds(list(descs(tier)) + graphprops.deep_descs(PROP, tier))))
 
